@@ -11,7 +11,7 @@ import (
 	"verif/scn"
 )
 
-const maxCandidates = 300
+var maxCandidates = 300
 
 type minimiser struct {
 	b     *build
